@@ -74,7 +74,7 @@ def _base_name(b):
 
 
 class Repo:
-    def __init__(self, root: str | None = None, overrides: dict | None = None):
+    def __init__(self, root: str | None = None, overrides: dict | None = None, base: "Repo | None" = None):
         self.root = root or repo_root()
         self.overrides = overrides or {}
         self.pkgdir = os.path.join(self.root, PKG_REL)
@@ -82,6 +82,7 @@ class Repo:
         self.stubs: dict[str, ModuleInfo] = {}
         self.classes: dict[str, ClassInfo] = {}
         self.header_source: str | None = None
+        self._base = base if (base is not None and base.root == (root or repo_root()) and not base.overrides) else None  # parsed modules of unchanged files are shared
         self.cache: dict = {}  # per-repository memo for rule helpers (never keyed by id(): variants get fresh objects)
         self._load()
 
@@ -98,6 +99,14 @@ class Repo:
         names = sorted(set(os.listdir(self.pkgdir)) | set(self.overrides))
         for fn in names:
             rel = f"{PKG_REL}/{fn}"
+            if self._base is not None and fn not in self.overrides:
+                stem, ext = os.path.splitext(fn)
+                if ext in (".py", ".pyx") and stem in self._base.modules and self._base.modules[stem].relpath == rel:
+                    self.modules[stem] = self._base.modules[stem]
+                    continue
+                if ext == ".pyi" and stem in self._base.stubs:
+                    self.stubs[stem] = self._base.stubs[stem]
+                    continue
             if fn.endswith(".py"):
                 src = self._read(fn)
                 tree = ast.parse(src, filename=rel)
@@ -157,14 +166,23 @@ class Repo:
         return tree
 
     # -- lookup --------------------------------------------------------------
+    def _touch(self, m):
+        """remember which source files a property's rules consulted (the thorough tier varies exactly those)"""
+        try:
+            self.touched.add(os.path.basename(m.relpath))
+        except AttributeError:
+            self.touched = {os.path.basename(m.relpath)}
+
     def module(self, name) -> ModuleInfo:
         if name not in self.modules:
             raise Unrecognised(f"module {name} not found")
+        self._touch(self.modules[name])
         return self.modules[name]
 
     def cls(self, name) -> ClassInfo:
         if name not in self.classes:
             raise Unrecognised(f"class {name} not found")
+        self._touch(self.classes[name].module)
         return self.classes[name]
 
     def mro(self, name) -> list[ClassInfo]:
@@ -206,6 +224,7 @@ class Repo:
         """Resolve a method through the MRO. Returns (ClassInfo, FunctionDef) or (None, None)."""
         for c in self.mro(cls_name):
             if meth in c.methods:
+                self._touch(c.module)
                 return c, c.methods[meth]
         return None, None
 
@@ -243,6 +262,7 @@ class Repo:
     def all_functions(self):
         """Yield (module, qualname, FunctionDef) for every function/method in the package."""
         for m in self.modules.values():
+            self._touch(m)
             yield from _functions_in(m, m.tree, "")
 
 
